@@ -1335,3 +1335,86 @@ def ob_pragmatic_matrix(ctx, n, m):
             res.status, res.detail = 'inconclusive', 'vacuous: no accepted path'
     res.time = time.time() - t0
     return res
+
+
+# ---------------------------------------------------------------------------------------------------------------------
+# C03: the place tag reported with an activity
+
+def ob_job_tag(ctx, distinguishable):
+    """C03 (place tag): `get_job_tag` (real MIR; `TimeSpan::to_time_window`, `TimeWindow::intersects` from vrp-core) for
+    a task with two alternative places (symbolic location and time window each, tags "a" and "b") and an activity that
+    uses place u (symbolic) with exactly that place's location and window: the reported tag is the tag of place u.
+    `distinguishable` = how the two places are assumed to differ: 'location' (different locations), 'disjoint' (same or
+    different location, non-intersecting windows), 'any' (only: not identical in location AND window) - the last one
+    is the property as stated; the first two are the conditions under which the matching by window INTERSECTION is exact."""
+    name = f'job_tag[{distinguishable}]'
+    res = Result(name)
+    res.bounds = 'one task with two tagged places (one location, one absolute time window each; symbolic); the activity carries the data of the used place; times in [0,2^16]'
+    t0 = time.time()
+    fn = ctx.prog.find_free('get_job_tag')
+    env = drivers.Env(ctx.prog, ctx.layout, 16)
+    eng, _ = ctx.engines(env)
+    holder = {}
+
+    def body(st):
+        env.assumptions.clear()
+        places, info = [], []
+        for i in range(2):
+            loc = env.sym_i(f'place{i}_loc', 0, 1000)
+            s, e = env.sym_f(f'place{i}_start'), env.sym_f(f'place{i}_end')
+            env.assumptions.append(s.v <= e.v)
+            places.append(env.struct('jobs::Place', location=mk_option(True, loc, ty='Option<usize>'), duration=FV.const(0),
+                                     times=VecV([EnumV('domain::TimeSpan', 0, {0: [env.time_window(s, e)]})])))
+            info.append((loc, s, e))
+        tags = VecV([Agg('tuple', [IV(0), Opaque('"a"')], ''), Agg('tuple', [IV(1), Opaque('"b"')], '')])
+        single = env.struct('jobs::Single', places=VecV(places), dimens=StateV({'place_tags': tags}))
+        used = z3.Bool('used_second')
+        pick = lambda a, b: zs(z3.If(used, b, a))
+        loc_u = IV(pick(info[0][0].t, info[1][0].t))
+        tw_u = env.time_window(FV(False, pick(info[0][1].v, info[1][1].v)), FV(False, pick(info[0][2].v, info[1][2].v)))
+        holder.update(info=info, used=used)
+        arg = Agg('tuple', [loc_u, Agg('tuple', [tw_u, FV.const(0)], '')], '')
+        return eng.exec_fn(st, fn, [RefV(Cell(single), 0), arg])
+
+    paths = eng.explore(body)
+    res.paths = len(paths)
+    res.functions |= eng.functions_used
+    saw = False
+    for st, out in paths:
+        if out is None:
+            if not no_panic(ctx, res, env, st, what=name):
+                break
+            continue
+        (l0, s0, e0), (l1, s1, e1) = holder['info']
+        used = holder['used']
+        if distinguishable == 'location':
+            pre = l0.t != l1.t
+        elif distinguishable == 'disjoint':
+            pre = z3.Or(e0.v < s1.v, e1.v < s0.v)
+        else:
+            pre = z3.Not(z3.And(l0.t == l1.t, s0.v == s1.v, e0.v == e1.v))
+        var = out.variant()
+        if var is None:
+            res.status, res.detail = 'inconclusive', 'symbolic option'
+            break
+        if var == 0:
+            claim = z3.BoolVal(False)       # a tagged place was used: some tag must be reported
+        else:
+            tag = deref_all(out.payload[1][0])
+            claim = z3.BoolVal(tag.name == '"b"') == used
+        if not decide_claim(ctx, res, env, st, claim, [pre], what=f'{name}: reported tag == tag of the place that was used'):
+            if res.status == 'violated' and res.model is not None:
+                m = res.model
+                ev = lambda t: m.eval(t, model_completion=True).as_long()
+                res.case = {'kind': 'job_tag', 'places': [{'loc': ev(l.t), 'start': ev(s.v), 'end': ev(e.v)} for l, s, e in holder['info']],
+                            'used': 1 if z3.is_true(m.eval(used, model_completion=True)) else 0}
+            break
+        if not no_panic(ctx, res, env, st, [pre], what=name):
+            break
+        saw = saw or witness(ctx, res, env, st, used, [pre])
+    if res.status == 'holds':
+        res.witnesses = int(saw)
+        if not saw:
+            res.status, res.detail = 'inconclusive', 'vacuous'
+    res.time = time.time() - t0
+    return res
